@@ -287,14 +287,32 @@ func runC02(c *Ctx) {
 		s := g.Eval(nde)
 		u := g.U
 		c.Fn(FuncName(nde))
-		loops := loopsOf(nde)
-		for _, site := range callsTo(nde, insert) {
-			l := innermostLoop(loops, site.Block())
-			ce := s.Env[site.(ssa.Value)]
+		// the calls are looked for in the constructor and in the helpers expanded into it
+		type siteT struct {
+			ef   Effect
+			l    *Loop
+			lact *Summary
+		}
+		sitesOf := func(callee *ssa.Function) []siteT {
+			var out []siteT
+			for _, ef := range s.Effects {
+				if ef.Kind == "call" && ef.Call != nil && ef.Call.Aux == calleeName(callee) && ef.Ins != nil {
+					act := ef.Act
+					if act == nil {
+						act = s
+					}
+					l, lact := loopAround(s, act, ef.Ins)
+					out = append(out, siteT{ef, l, lact})
+				}
+			}
+			return out
+		}
+		for _, st := range sitesOf(insert) {
+			site, l, ce := st.ef.Ins, st.l, st.ef.Call
 			ok := l != nil && ce != nil
 			if ok {
-				body := u.bdd.And(s.RC[l.Header], contCond(u, s, l))
-				rc := s.RCAt(site)
+				body := u.bdd.And(st.lact.RC[l.Header], contCond(u, st.lact, l))
+				rc := st.ef.Cond
 				arg := ce.Args[1]
 				if arg.Op == "field" && arg.Aux == "Hostnames" {
 					arg = arg.Args[0] // the names of the rule are handed over
@@ -312,12 +330,12 @@ func runC02(c *Ctx) {
 			c.Check(ok, "C02.R3", "NewDNSEngine: every *HostRule goes to the host table", site.Pos(), "called exactly when the scanned rule is a *HostRule, in the scan loop",
 				"the host-table insert is not reached exactly for the scanned *HostRule values")
 		}
-		for _, site := range callsTo(nde, neAdd) {
-			l := innermostLoop(loops, site.Block())
+		for _, st := range sitesOf(neAdd) {
+			site, l := st.ef.Ins, st.l
 			ok := l != nil
 			if ok {
-				body := u.bdd.And(s.RC[l.Header], contCond(u, s, l))
-				rc := s.RCAt(site)
+				body := u.bdd.And(st.lact.RC[l.Header], contCond(u, st.lact, l))
+				rc := st.ef.Cond
 				var ist, hl Ref = False, False
 				for _, at := range u.AtomsOf(rc) {
 					if at.Op == "istype" && at.Aux == "*rules.NetworkRule" {
@@ -338,7 +356,7 @@ func runC02(c *Ctx) {
 				ok = rest == want && hl != False && isScannerLoop(l)
 			}
 			c.Check(ok, "C02.R3", "NewDNSEngine: a *NetworkRule is loaded exactly when IsHostLevelNetworkRule()", site.Pos(), "guarded by the true edge of IsHostLevelNetworkRule on the scanned rule",
-				"network rules are not loaded exactly under IsHostLevelNetworkRule() (all rules loaded, or some host-level rules skipped): "+clip(u.ShowBool(s.RCAt(site)), 200))
+				"network rules are not loaded exactly under IsHostLevelNetworkRule() (all rules loaded, or some host-level rules skipped): "+clip(u.ShowBool(st.ef.Cond), 200))
 		}
 	}
 
